@@ -395,6 +395,8 @@ pub struct Gen {
 	burst_amp: f64,
 	/// range regimes: stretches on an exact tick grid with equal-size candles in a steady trend that flips now and then, and
 	/// quiet stretches (all moves shrunk 50-fold) between volatile ones
+	/// all prices of the stream rounded to a tick grid (exact ties between highs / lows / closes of different bars)
+	pub tick_grid: Option<f64>,
 	grid_left: u32,
 	grid_dir: f64,
 	grid_tick: f64,
@@ -413,7 +415,7 @@ impl Gen {
 		let scale = *rng.pick(&[1e-3, 0.37, 1.0, 12.5, 100.0, 3e4]);
 		let cur = scale * (0.5 + rng.unit());
 		let shape = rng.below(8);
-		Self { no_zero_volume: false, no_plateau: false, force_drop_at: None, droughts: false, drought_left: 0, long_regimes: false, regime_left: 0, one_sided: false, side: 0, burst_left: 0, burst_amp: 0.0, grid_left: 0, grid_dir: 1.0, grid_tick: 0.0, quiet: false, calls: 0, rng, scale, cur, shape, positive }
+		Self { no_zero_volume: false, no_plateau: false, force_drop_at: None, droughts: false, drought_left: 0, long_regimes: false, regime_left: 0, one_sided: false, side: 0, burst_left: 0, burst_amp: 0.0, tick_grid: None, grid_left: 0, grid_dir: 1.0, grid_tick: 0.0, quiet: false, calls: 0, rng, scale, cur, shape, positive }
 	}
 	fn finish(&mut self, mut v: f64) -> f64 {
 		if self.positive {
@@ -573,6 +575,11 @@ impl Gen {
 			}
 		}
 		self.cur = close;
+		if let Some(t) = self.tick_grid {
+			// (rounding is monotone: low <= open, close <= high is preserved)
+			let r = |x: f64| ((x / t).round() * t).max(t);
+			return candle(r(open), r(high), r(low), r(close), volume);
+		}
 		candle(open, high, low, close, volume)
 	}
 	pub fn input(&mut self, kind: char) -> In {
